@@ -377,6 +377,27 @@ def cmdOptab (args : List String) : String :=
     | _, _ => "bad-request"
   | _ => "bad-request"
 
+/-! ### L2 evaluator (C01 …) -/
+
+/-- `eval <fuel> <hex of program s-expression>` → `<outcome> <hex of stdout>` -/
+def cmdEval (args : List String) : String :=
+  match args with
+  | [fuel, hex] =>
+    match stringOfHex hex with
+    | none => "bad-request"
+    | some src =>
+      match Spec.parseSExp src with
+      | none => "bad-sexp"
+      | some sx =>
+        let r := Spec.run (Spec.decProgram sx) fuel.toNat!
+        s!"{r.outcome.replace " " "_"} {hexOfString r.stdout}"
+  | _ => "bad-request"
+
+def cmdFmt (args : List String) : String :=
+  match args with
+  | [bits] => Spec.fmtFloat (Float.ofBits (UInt64.ofNat bits.toNat!))
+  | _ => "bad-request"
+
 def dispatch (line : String) : String :=
   match (line.splitOn " ").filter (· ≠ "") with
   | "scan" :: args => cmdScan args
@@ -384,6 +405,8 @@ def dispatch (line : String) : String :=
   | "trie" :: args => cmdTrie args
   | "types" :: args => cmdTypes args
   | "lit" :: args => cmdLit args
+  | "eval" :: args => cmdEval args
+  | "fmt" :: args => cmdFmt args
   | "optab" :: args => cmdOptab args
   | "idxcheck" :: args => cmdIdxCheck args
   | "slicecheck" :: args => cmdSliceCheck args
